@@ -100,16 +100,17 @@ func c12Run(c *fw.Ctx) {
 			e.e.Close()
 		}
 	}()
+	hmacSecret := c12HMACSecret // the shared key the upstream verifies with, used literally as documented
 	getEnv := func(signer, hmacOn bool, inject ...bool) *c12Env {
 		inj := len(inject) > 0 && inject[0]
-		k := fmt.Sprintf("signer=%v,hmac=%v,inject=%v", signer, hmacOn, inj)
+		k := fmt.Sprintf("signer=%v,hmac=%v,inject=%v,secret=%s", signer, hmacOn, inj, hmacSecret)
 		if e := envs[k]; e != nil {
 			return e
 		}
 		// the HMAC key is supplied the documented way: SSO_CONFIG_<SERVICE>_SIGNING_KEY in the environment
 		os.Unsetenv("SSO_CONFIG_SVCA_SIGNING_KEY")
 		if hmacOn {
-			os.Setenv("SSO_CONFIG_SVCA_SIGNING_KEY", "sha256:"+c12HMACSecret)
+			os.Setenv("SSO_CONFIG_SVCA_SIGNING_KEY", "sha256:"+hmacSecret)
 		}
 		y := "- service: svca\n  default:\n    from: " + hostA + "\n    to: {{backend:a}}\n    options:\n      allowed_email_domains:\n        - '*'\n"
 		if inj {
@@ -188,8 +189,9 @@ func c12Run(c *fw.Ctx) {
 
 	type c12Scenario struct {
 		name    string
-		inject  bool // the upstream injects a covered header (Authorization)
-		drop    bool // the backend reads the first request completely, then drops that connection without answering
+		secret  string // the upstream's shared HMAC key ("" = the default one)
+		inject  bool   // the upstream injects a covered header (Authorization)
+		drop    bool   // the backend reads the first request completely, then drops that connection without answering
 		methods []string
 		shapes  []shape
 		paths   []string
@@ -214,12 +216,21 @@ func c12Run(c *fw.Ctx) {
 		{name: "upstream-drops-first-connection", drop: true, methods: []string{"GET", "PUT", "DELETE", "POST"}, shapes: pickShapes("all-absent", "all-single"),
 			paths: paths[:1], queries: queries[:2], bodies: []bodyCase{bodies[0], bodies[2], bodies[3], bodies[5]}, conns: conns[:1]},
 	}
+	// shared keys of other shapes: one that happens to be well-formed base64, hex, padded base64
+	for _, sec := range []string{"changemechangeme", "0123456789abcdef0123456789abcdef", "c2VjcmV0MTIzNA=="} {
+		scenarios = append(scenarios, c12Scenario{name: "hmac-key-shape/" + sec, secret: sec, methods: []string{"GET", "POST"}, shapes: pickShapes("all-absent", "all-single"),
+			paths: paths[:1], queries: queries[:2], bodies: []bodyCase{bodies[0], bodies[2]}, conns: conns[:1]})
+	}
 	for _, sc := range scenarios {
 		sc := sc
+		if sc.secret == "" {
+			sc.secret = c12HMACSecret
+		}
 		drive(c, sc.name, -1, func(x *explore.Exec, owned bool) {
 			methods, shapes, paths, queries, bodies, conns := sc.methods, sc.shapes, sc.paths, sc.queries, sc.bodies, sc.conns
 			signer := x.Choose("signer", 2) == 0
 			hm := x.Choose("hmac", 2) == 0
+			hmacSecret = sc.secret
 			ce := getEnv(signer, hm, sc.inject)
 			e := ce.e
 			method := methods[x.Choose("method", len(methods))]
@@ -340,7 +351,7 @@ func c12Run(c *fw.Ctx) {
 					}
 				}
 				if hm {
-					auth := hmacauth.NewHmacAuth(crypto.SHA256, []byte(c12HMACSecret), "Gap-Signature", c12Covered)
+					auth := hmacauth.NewHmacAuth(crypto.SHA256, []byte(sc.secret), "Gap-Signature", c12Covered)
 					res, hs, cs := auth.AuthenticateRequest(hitRequest(h))
 					if res != hmacauth.ResultMatch {
 						viol("gap-signature-mismatch/"+cause, fmt.Sprintf("Gap-Signature does not authenticate at the upstream (result %d, header %q, computed %q)", res, hs, cs))
